@@ -42,7 +42,7 @@ func (c04) Cases(c *Ctx) int { return c.Pick(1500, 30000) }
 
 func progCfgReplay(c *Ctx) ProgCfg {
 	return ProgCfg{
-		Gen:      GenCfg{Depth: c.Pick(2, 3), RejectHeavy: true, SmallInts: true, Custom: true, CustomStmts: true, LenCap: 8},
+		Gen:      GenCfg{Depth: c.Pick(2, 3), RejectHeavy: true, SmallInts: true, Custom: true, CustomStmts: true, LenCap: 8, MakeFlat: true},
 		MaxStmts: c.Pick(4, 6), Repeat: true, Cleanups: false, Skips: false, SigPct: 0, FailAtEnd: true,
 	}
 }
